@@ -57,3 +57,33 @@ def run_case(case, apply, **kwargs):
         return xform.run_case(case, apply, **kwargs)
     finally:
         xform.build_run = orig
+
+
+def judge_until(ctx, cases, worker, deadline_s, chunk=None):
+    """judge `cases` (seeded order) in chunks until all are done or ctx.elapsed() exceeds deadline_s.
+    -> (cases_done, results, complete).  The time cap only ever truncates the enumeration (reported by the caller as
+    exhaustive=False with the number completed); it never selects cases: the order is the seeded enumeration order."""
+    from vf.explore import seeded_order
+    order = seeded_order(list(range(len(cases))), ctx.seed)
+    chunk = chunk or max(16, ctx.nproc * 4)
+    done, results = [], []
+    for s in range(0, len(order), chunk):
+        if ctx.elapsed() > deadline_s:
+            return done, results, False
+        part = [cases[i] for i in order[s:s + chunk]]
+        results += ctx.pmap(worker, part, chunksize=1)
+        done += part
+    return done, results, True
+
+
+def interleave(cases, key):
+    """round-robin over the groups given by key(case) (deterministic): a capped run then covers every group evenly"""
+    groups = {}
+    for c in cases:
+        groups.setdefault(key(c), []).append(c)
+    out, i = [], 0
+    lists = list(groups.values())
+    while any(i < len(g) for g in lists):
+        out += [g[i] for g in lists if i < len(g)]
+        i += 1
+    return out
